@@ -264,3 +264,38 @@ def c18(ctx, rep):
     output_rules.rule_json_envelope(ctx, rep)
     detectors.rule_renderings(ctx, rep)
     cfg_rules.rule_call_graph(ctx, rep)
+
+
+from .rules import effects  # noqa: E402
+
+
+@prop("C14", "Decides the structural clauses of C14: (E-SHARED) whole-package alias analysis: no module-level or class-level mutable "
+             "container nor any alias of one (assignments, element reads, returns, parameters; copies cut the alias) is mutated after "
+             "module initialisation; _universal_set returns a fresh object; (E-ORDER) sets of strings are sorted before they are stored "
+             "in block-context attributes or returned by to_json; (R-OWN(context)) only the analyses write context attributes - a "
+             "detector cannot change what another reads; (T-STORE) stored lists are functions of the computed sets only. "
+             "Not decided: uniqueness of the fixpoint under different worklist orders; byte-identity of whole outputs.")
+def c14(ctx, rep):
+    effects.rule_shared_roots(ctx, rep)
+    effects.rule_hash_order(ctx, rep)
+    effects.rule_context_writers(ctx, rep)
+    cmptables.rule_addr_store(ctx, rep)
+    cmptables.rule_int_store(ctx, rep)
+    cmptables.rule_universe_fresh(ctx, rep)
+
+
+from .rules import spelling  # noqa: E402
+
+
+@prop("C15", "Decides the clauses of C15 visible in the source: (T-SPELL(int)) decimal/hex/octal spellings parse to the same value in both "
+             "integer parsers and every opcode with integer immediates; (T-SPELL(named)) named and numeric transaction types / completion "
+             "actions give the same table cell; (T-SPELL(intc)) int / pushint / intc / intc_k give the same cell, unresolvable intc gives no "
+             "information, constant block resolved only when unique and in the entry block; (R-DOOR) constants are recognised only through "
+             "is_int_push_ins / is_byte_push_ins; (T-REWRITE) label renaming, comments, blank lines, indentation leave the graph of 30 "
+             "program shape classes unchanged. Not decided: the metamorphic relation on verdicts (padding insertion, moving subroutines).")
+def c15(ctx, rep):
+    spelling.rule_int_spellings(ctx, rep)
+    spelling.rule_named_constants(ctx, rep)
+    spelling.rule_constant_block(ctx, rep)
+    spelling.rule_one_door(ctx, rep)
+    spelling.rule_rewrite_invariance(ctx, rep)
